@@ -3,7 +3,7 @@
    cli/actions/goals_action.py).  An edit of the Python changes the Coq terms these proofs
    are about. *)
 From Coq Require Import List ZArith QArith Qcanon Lia Arith Bool Field.
-From Polar Require Import Qcx Stats.
+From Polar Require Import Qcx Stats StatsFps.
 From PolarGen Require Import StatsGen.
 Import ListNotations.
 Local Open Scope Qc_scope.
@@ -190,6 +190,100 @@ Proof.
     intros k Hk. apply in_pyrange in Hk. rewrite H by lia. reflexivity.
 Qed.
 
+(* the translated function, read as a sequence of cumulants *)
+Definition cumulants_seq (cmb : nat -> nat -> Z) (d : pydict) : seqc :=
+  fun i => dget (raw_moments_to_cumulants_with cmb d) i.
+
+(* ... satisfies the moment-cumulant recursion m_i = sum_{k=1..i} C(i-1,k-1) kappa_k m_{i-k}
+   w.r.t. the raw moments of the law (m_0 = 1) *)
+Theorem cumulants_cum_rec (cmb : nat -> nat -> Z) L K d :
+  (forall n k, (n <= K)%nat -> cmb n k = binom n k) ->
+  mass L = 1 -> moments_of L K d -> cum_rec K (raw L) (cumulants_seq cmb d).
+Proof.
+  intros Hc HM [HL HD] i Hi. unfold cumulants_seq.
+  pose proof (cumulants_recursion cmb d i ltac:(lia)) as R. cbv zeta in R.
+  replace (i + 1)%nat with (S i) by lia. rewrite pyrange_S by lia.
+  rewrite bigsum_app, bigsum_cons, bigsum_nil. rewrite Nat.sub_diag, raw_0, HM.
+  replace (bq (i - 1) (i - 1)) with 1 by (unfold bq; rewrite binom_diag; reflexivity).
+  rewrite R. rewrite (HD i) by lia.
+  assert (E : bigsum (pyrange 1 i) (fun k => zq (cmb (i - 1)%nat (k - 1)%nat)
+                 * dget (raw_moments_to_cumulants_with cmb d) k * dget d (i - k)%nat)
+              = bigsum (pyrange 1 i) (fun k => bq (i - 1) (k - 1)
+                 * dget (raw_moments_to_cumulants_with cmb d) k * raw L (i - k)%nat)).
+  { apply bigsum_ext. intros k Hk. apply in_pyrange in Hk. rewrite Hc by lia. rewrite HD by lia. reflexivity. }
+  rewrite E. ring.
+Qed.
+
+(* FULL STRENGTH, independent definition: the translated cumulants are the coefficients of
+   the logarithm of the exponential generating function of the raw moments *)
+Theorem cumulants_are_log_coefficients (cmb : nat -> nat -> Z) L K d i :
+  (forall n k, (n <= K)%nat -> cmb n k = binom n k) ->
+  mass L = 1 -> moments_of L K d -> (1 <= i <= K)%nat ->
+  dget (raw_moments_to_cumulants_with cmb d) i = cumulant_log (raw L) i.
+Proof.
+  intros Hc HM HD Hi.
+  apply (cum_rec_is_log K (raw L) (cumulants_seq cmb d)); [rewrite raw_0; exact HM | | exact Hi].
+  apply cumulants_cum_rec; assumption.
+Qed.
+
+(* additivity over independent sums, EVERY order *)
+Theorem cumulants_additive (cmb : nat -> nat -> Z) L1 L2 K d1 d2 d12 i :
+  (forall n k, (n <= K)%nat -> cmb n k = binom n k) ->
+  mass L1 = 1 -> mass L2 = 1 ->
+  moments_of L1 K d1 -> moments_of L2 K d2 -> moments_of (indep_sum L1 L2) K d12 ->
+  (1 <= i <= K)%nat ->
+  dget (raw_moments_to_cumulants_with cmb d12) i
+  = dget (raw_moments_to_cumulants_with cmb d1) i + dget (raw_moments_to_cumulants_with cmb d2) i.
+Proof.
+  intros Hc M1 M2 D1 D2 D12 Hi.
+  assert (M12 : mass (indep_sum L1 L2) = 1) by (rewrite mass_indep_sum, M1, M2; ring).
+  pose proof (cumulants_cum_rec cmb _ K d1 Hc M1 D1) as R1.
+  pose proof (cumulants_cum_rec cmb _ K d2 Hc M2 D2) as R2.
+  pose proof (cumulants_cum_rec cmb _ K d12 Hc M12 D12) as R12.
+  pose proof (cum_rec_additive K _ _ _ _ R1 R2) as RA.
+  assert (RA' : cum_rec K (raw (indep_sum L1 L2)) (sadd (cumulants_seq cmb d1) (cumulants_seq cmb d2))).
+  { apply (cum_rec_ext K _ _ _ _ (fun i _ => eq_sym (raw_indep_sum L1 L2 i)) (fun i _ => eq_refl) RA). }
+  apply (cum_rec_unique K _ _ _ ltac:(rewrite raw_0; exact M12) R12 RA' i Hi).
+Qed.
+
+(* shift: kappa_1 (X + c) = kappa_1 X + c, kappa_i (X + c) = kappa_i X for i >= 2, EVERY order *)
+Theorem cumulants_shift (cmb : nat -> nat -> Z) L c K d d' i :
+  (forall n k, (n <= K)%nat -> cmb n k = binom n k) ->
+  mass L = 1 -> moments_of L K d -> moments_of (shift_law c L) K d' -> (1 <= i <= K)%nat ->
+  dget (raw_moments_to_cumulants_with cmb d') i
+  = dget (raw_moments_to_cumulants_with cmb d) i + (if Nat.eqb i 1 then c else 0).
+Proof.
+  intros Hc HM HD HD' Hi.
+  assert (M' : mass (shift_law c L) = 1).
+  { unfold mass. rewrite Ex_shift_law. exact HM. }
+  pose proof (cumulants_cum_rec cmb _ K d Hc HM HD) as R.
+  pose proof (cumulants_cum_rec cmb _ K d' Hc M' HD') as R'.
+  pose proof (cum_rec_additive K _ _ _ _ R (cum_rec_const K c)) as RA.
+  assert (RA' : cum_rec K (raw (shift_law c L))
+                  (sadd (cumulants_seq cmb d) (fun i => match i with 1%nat => c | _ => 0 end))).
+  { apply (cum_rec_ext K _ _ _ _ (fun i _ => eq_sym (raw_shift_law c L i)) (fun i _ => eq_refl) RA). }
+  pose proof (cum_rec_unique K _ _ _ ltac:(rewrite raw_0; exact M') R' RA' i Hi) as E.
+  unfold cumulants_seq, sadd in E. rewrite E. f_equal.
+  destruct i as [|[|i]]; reflexivity.
+Qed.
+
+(* homogeneity: kappa_i (c X) = c^i kappa_i X, EVERY order *)
+Theorem cumulants_scale (cmb : nat -> nat -> Z) L c K d d' i :
+  (forall n k, (n <= K)%nat -> cmb n k = binom n k) ->
+  mass L = 1 -> moments_of L K d -> moments_of (scale_law c L) K d' -> (1 <= i <= K)%nat ->
+  dget (raw_moments_to_cumulants_with cmb d') i = qpow c i * dget (raw_moments_to_cumulants_with cmb d) i.
+Proof.
+  intros Hc HM HD HD' Hi.
+  assert (M' : mass (scale_law c L) = 1).
+  { unfold mass. rewrite Ex_scale_law. exact HM. }
+  pose proof (cumulants_cum_rec cmb _ K d Hc HM HD) as R.
+  pose proof (cumulants_cum_rec cmb _ K d' Hc M' HD') as R'.
+  pose proof (cum_rec_scale K c _ _ R) as RS.
+  assert (RS' : cum_rec K (raw (scale_law c L)) (fun i => qpow c i * cumulants_seq cmb d i)).
+  { apply (cum_rec_ext K _ _ _ _ (fun i _ => eq_sym (raw_scale_law c L i)) (fun i _ => eq_refl) RS). }
+  exact (cum_rec_unique K _ _ _ ltac:(rewrite raw_0; exact M') R' RS' i Hi).
+Qed.
+
 (* ------------------------------------------------------------------------------------ *)
 (** * tail bounds                                                                      *)
 (* ------------------------------------------------------------------------------------ *)
@@ -250,4 +344,76 @@ Proof.
   - exact HS.
   - apply get_all_moments_spec.
   - unfold tail_bound_lower_order. lia.
+Qed.
+
+(* ------------------------------------------------------------------------------------ *)
+(** * instances: the mathematical binomial, and Polar's own comb                       *)
+(* ------------------------------------------------------------------------------------ *)
+
+Theorem centrals_exact L K d i :
+  mass L = 1 -> moments_of L K d -> (2 <= i <= K)%nat ->
+  dget (raw_moments_to_centrals_with binom d) i = central L i.
+Proof. apply centrals_exact_gen. reflexivity. Qed.
+
+Lemma comb_ok_upto K : (K <= 56)%nat -> forall n k, (n <= K)%nat -> comb n k = binom n k.
+Proof. intros HK n k Hn. apply comb_spec_small_lemma. lia. Qed.
+
+Theorem centrals_exact_polar_small L K d i :
+  (K <= 56)%nat -> mass L = 1 -> moments_of L K d -> (2 <= i <= K)%nat ->
+  dget (raw_moments_to_centrals d) i = central L i.
+Proof. intros HK. apply centrals_exact_gen. apply comb_ok_upto. exact HK. Qed.
+
+Theorem cumulants_polar_small L K d i :
+  (K <= 56)%nat -> mass L = 1 -> moments_of L K d -> (1 <= i <= K)%nat ->
+  dget (raw_moments_to_cumulants d) i = cumulant_log (raw L) i.
+Proof. intros HK. apply cumulants_are_log_coefficients. apply comb_ok_upto. exact HK. Qed.
+
+(* ---- refutations with Polar's own comb: X ~ Bernoulli(1/2) ---- *)
+Definition bernoulli_half : law := [(mkq 1 2, mkq 0 1); (mkq 1 2, mkq 1 1)].
+Definition prow_binom_fn (n k : nat) : Z := nth k (prow n) 0%Z.
+
+Lemma bernoulli_half_prob : is_prob bernoulli_half.
+Proof.
+  split.
+  - intros p [<-|[<-|[]]]; cbn [fst]; unfold Qcle; vm_compute; discriminate.
+  - apply Qc_eqb_true. vm_compute. reflexivity.
+Qed.
+
+Lemma centrals_57_values :
+  qpair (dget (raw_moments_to_centrals (fst (get_all_moments (raw bernoulli_half) (fun _ => true) 57))) 57)
+    = ((-127)%Z, 8589934592%positive)
+  /\ qpair (central bernoulli_half 57) = (0%Z, 1%positive).
+Proof. split; vm_compute; reflexivity. Qed.
+
+Theorem centrals_refuted_lemma :
+  exists (L : law) (K : nat) (d : pydict) (i : nat),
+    is_prob L /\ moments_of L K d /\ (2 <= i <= K)%nat /\
+    dget (raw_moments_to_centrals d) i <> central L i.
+Proof.
+  exists bernoulli_half, 57%nat, (fst (get_all_moments (raw bernoulli_half) (fun _ => true) 57)), 57%nat.
+  split; [exact bernoulli_half_prob|]. split; [apply get_all_moments_spec|]. split; [lia|].
+  intros E. destruct centrals_57_values as [H1 H2]. rewrite E, H2 in H1. discriminate H1.
+Qed.
+
+Lemma cumulants_58_values :
+  Qc_eqb (dget (raw_moments_to_cumulants (fst (get_all_moments (raw bernoulli_half) (fun _ => true) 58))) 58)
+         (dget (raw_moments_to_cumulants_with prow_binom_fn (fst (get_all_moments (raw bernoulli_half) (fun _ => true) 58))) 58)
+  = false.
+Proof. vm_compute. reflexivity. Qed.
+
+Theorem cumulants_refuted_lemma :
+  exists (L : law) (K : nat) (d : pydict) (i : nat),
+    is_prob L /\ moments_of L K d /\ (1 <= i <= K)%nat /\
+    dget (raw_moments_to_cumulants d) i <> cumulant_log (raw L) i.
+Proof.
+  exists bernoulli_half, 58%nat, (fst (get_all_moments (raw bernoulli_half) (fun _ => true) 58)), 58%nat.
+  split; [exact bernoulli_half_prob|]. split; [apply get_all_moments_spec|]. split; [lia|].
+  intros E.
+  rewrite <- (cumulants_are_log_coefficients prow_binom_fn bernoulli_half 58
+                (fst (get_all_moments (raw bernoulli_half) (fun _ => true) 58)) 58) in E.
+  - pose proof cumulants_58_values as H. rewrite E in H. rewrite Qc_eqb_refl in H. discriminate H.
+  - intros n k _. apply prow_binom.
+  - apply bernoulli_half_prob.
+  - apply get_all_moments_spec.
+  - lia.
 Qed.
